@@ -118,6 +118,7 @@ package protocol
 
 //@ func (*decoder).readByte
 //@   option as decodeFunc0
+//@   ensures old(d.err) == nil && d.err == nil ==> d.remain == old(d.remain) - 1
 //@ functype decodeFunc0
 //@   requires 0 <= $0.remain && $0.remain <= 0x7fffffff
 //@   modifies $0.remain, $0.err, $0.crc32, $0.buffer, region($rpos)
@@ -137,10 +138,12 @@ package protocol
 //@   option as decodeFunc0
 //@ func (*decoder).readVarInt
 //@   option as decodeFunc0
+//@   ensures old(d.err) == nil && d.err == nil ==> d.remain < old(d.remain)
 //@   loop 0 invariant d.remain >= 0 && d.remain <= old(d.remain) && n <= 11 && (old(d.err) != nil ==> d.err == old(d.err))
 //@   loop 0 decreases n
 //@ func (*decoder).readUnsignedVarInt
 //@   option as decodeFunc0
+//@   ensures old(d.err) == nil && d.err == nil ==> d.remain < old(d.remain)
 //@   loop 0 invariant d.remain >= 0 && d.remain <= old(d.remain) && n <= 11 && (old(d.err) != nil ==> d.err == old(d.err))
 //@   loop 0 decreases n
 //@ func (*decoder).readString
@@ -209,3 +212,38 @@ package protocol
 //@   requires len(b) >= 8
 //@ func readFloat64
 //@   requires len(b) >= 8
+
+//@ func dontExpectEOF
+//@   ensures (result == nil) == (err == nil)
+//@ func looksLikeUnexpectedTLS
+//@   mode bv
+
+//@ func (*messageType).new
+//@   trusted reflect.New of the registered message type
+//@   ensures result != nil
+//@ func valueOf
+//@   trusted reflect.ValueOf(x).Elem()
+
+//@ func ReadResponse
+//@   option noframe
+//@   unproved index@"t.responses[apiVersion-minVersion]" registry invariant: typesOf() fills responses[v-min] for every min <= v <= max, so the index is in range whenever the version test above passed
+//@   ensures err == nil ==> msg != nil
+//@   loop 0 invariant 0 <= d.remain && d.remain <= 0x7fffffff && 0 <= i
+//@   loop 0 decreases d.remain + ite(d.err == nil, 1, 0)
+
+//@ func structDecodeFuncOf$2
+//@   option as decodeFunc
+//@   loop 0 invariant 0 <= d.remain && d.remain <= old(d.remain) && (old(d.err) != nil ==> d.err == old(d.err))
+//@   loop 1 invariant 0 <= d.remain && d.remain <= old(d.remain) && (old(d.err) != nil ==> d.err == old(d.err)) && 0 <= i
+//@   loop 1 decreases d.remain + ite(d.err == nil, 1, 0)
+
+//@ func arrayDecodeFuncOf$1
+//@   option as decodeFunc
+//@ func arrayDecodeFuncOf$2
+//@   option as decodeFunc
+
+//@ func ReadRequest
+//@   option noframe
+//@   unproved index@"t.requests[apiVersion-minVersion]" registry invariant: typesOf() fills requests[v-min] for every min <= v <= max
+//@   loop 0 invariant 0 <= d.remain && d.remain <= 0x7fffffff && 0 <= i
+//@   loop 0 decreases d.remain + ite(d.err == nil, 1, 0)
